@@ -65,6 +65,9 @@ type scenOpts struct {
 	Kinds            []byte // allowed child kinds (weights by repetition)
 	FailPct          int    // percent of nodes with a failing terminator
 	NoSelfdestruct   bool
+	NoOOG            bool     // no out-of-gas terminators (gas-insensitive scenarios)
+	GasReqs          []uint64 // gas requested per depth (default {0,1500000,300000,60000,12000,2500})
+	RootGas          uint64
 	CDLens           []int
 	ValuePct         int
 	Extra            func(a *h.Asm, n *node, phase int)
@@ -147,7 +150,11 @@ func genScenario(r *h.RNG, o scenOpts) *scenario {
 				n.HugeVal = true
 			}
 		}
-		n.GasReq = []uint64{0, 1500000, 300000, 60000, 12000, 2500}[min(depth, 5)]
+		gr := o.GasReqs
+		if gr == nil {
+			gr = []uint64{0, 1500000, 300000, 60000, 12000, 2500}
+		}
+		n.GasReq = gr[min(depth, len(gr)-1)]
 		na := r.Intn(3)
 		for i := 0; i < na; i++ {
 			n.Pre = append(n.Pre, genAction(r, n))
@@ -169,6 +176,9 @@ func genScenario(r *h.RNG, o scenOpts) *scenario {
 		// terminator
 		if r.Chance(o.FailPct) {
 			n.Term = h.Pick(r, []int{tRevert, tRevert, tInvalid, tOOG})
+			if o.NoOOG && n.Term == tOOG {
+				n.Term = tInvalid
+			}
 		} else {
 			switch r.Intn(6) {
 			case 0:
@@ -204,6 +214,9 @@ func genScenario(r *h.RNG, o scenOpts) *scenario {
 	sc.build()
 	cd := sc.calldataFor(sc.Root)
 	sc.Tx = h.TxSpec{Entry: h.ECall, From: h.Sender, To: h.ContractAddr(sc.Root.Contract), Input: cd, Gas: 3_000_000, Value: new(big.Int).SetUint64(sc.Root.Value)}
+	if o.RootGas != 0 {
+		sc.Tx.Gas = o.RootGas
+	}
 	return sc
 }
 
